@@ -213,7 +213,7 @@ func zzH_c15_ka_ecc_processClientKeyExchange() {
 //verif:outside SM2 verification and ASN.1 decoding themselves (stubbed by arbitrary results)
 //verif:stub github.com/tjfoc/gmsm/sm2.P256Sm2 zzStubP256Sm2
 //verif:stub encoding/asn1.Unmarshal zzStubAsn1Unmarshal
-//verif:stub (*github.com/tjfoc/gmsm/sm2.PublicKey).Verify zzStubSm2Verify
+//verif:stub-symbolic (*github.com/tjfoc/gmsm/sm2.PublicKey).Verify zzStubSm2Verify
 func zzH_c15_ka_ecc_processServerKeyExchange() {
 	L := vChoice("L", 9)
 	key := vBytes("key", L, L)
